@@ -28,6 +28,8 @@ RULE = ('Every case evaluates ALL operations of the statement on freshly generat
         'from_heading, from_polar, rotate, limit with |v|/m concentrated in [0.3, 3] and m on both sides of 1. '
         ''
         'In ~8% of the cases 64-520 distinct angles are swept twice through from_polar / from_heading. '
+        ''
+        'Matrix-times-vector is also evaluated with instances of user-defined subclasses of the vector classes. '
         'Non-trivial = all matrix entries non-zero and pairwise different and the limit ratio inside (0.3, 3) '
         'with m != 1. Distinct = sha1 of canonical JSON. By the Schwartz-Zippel bound a wrong polynomial of '
         'degree <= 4 agrees with the reference on one random point of this grid with probability <= 4/20001.')
